@@ -43,6 +43,14 @@ func configureLogger(o options.Logging, msgs []string) []string {
 		logger.Error("Warning: Logging disabled. No further logs will be shown.")
 	}
 
+	// Refuse formats that cannot be rendered before handing them to the logger
+	if errs := logger.ValidateTemplates(o.StandardFormat, o.AuthFormat, o.RequestFormat); len(errs) > 0 {
+		for _, err := range errs {
+			msgs = append(msgs, err.Error())
+		}
+		return msgs
+	}
+
 	// Pass configuration values to the standard logger
 	logger.SetStandardEnabled(o.StandardEnabled)
 	logger.SetErrToInfo(o.ErrToInfo)
